@@ -615,7 +615,7 @@ int main(int argc, char **argv) {
     { int lwrel = arg_int(argc, argv, "--lwrel", -1);
       if (REFACT && lwrel >= 0) {
         long *SR = mmap(NULL, sizeof(long) * 4, PROT_READ | PROT_WRITE, MAP_SHARED | MAP_ANONYMOUS, -1, 0);
-#define TRIAL(F7, F8, LW) ({ fflush(NULL); pid_t pid_ = fork(); if (pid_ == 0) { int fd_ = open("/dev/null", O_WRONLY); if (fd_ >= 0) dup2(fd_, 2); in_ref_child = 1; REF_INLINE = 1; MODEL_ENABLED = 0; int P_ = CFG.nprocs; CFG.nprocs = 1; if (F7) CFG.fill7 = (F7); if (F8) CFG.fill8 = (F8); CFG.lwork = (LW); REF_OK = 0; sched_reset(); run_refactor_once(); CFG.nprocs = P_; _exit(REF_OK ? 0 : 1); } int st_; waitpid(pid_, &st_, 0); WIFEXITED(st_) && WEXITSTATUS(st_) == 0; })
+#define TRIAL(F7, F8, LW) ({ fflush(NULL); pid_t pid_ = fork(); if (pid_ == 0) { int fd_ = open("/dev/null", O_WRONLY); if (fd_ >= 0) dup2(fd_, 2); in_ref_child = 1; REF_INLINE = 1; MODEL_ENABLED = 0; int P_ = CFG.nprocs; CFG.nprocs = 1; if (F7) CFG.fill7 = (F7); if (F8) CFG.fill8 = (F8); CFG.lwork = (LW); REF_OK = 0; sched_reset(); run_refactor_once(); CFG.nprocs = P_; _exit(REF_OK ? 0 : 1); } int st_; waitpid(pid_, &st_, 0); vf_discard_log(pid_); WIFEXITED(st_) && WEXITSTATUS(st_) == 0; })
         int m7 = 0, m8 = 0; long L1 = 0;
         for (int f = 1; f <= 150 && !m7; f++) if (TRIAL(f, 0, 1L << 20)) m7 = f;
         for (int f = 1; f <= 150 && !m8; f++) if (TRIAL(m7, f, 1L << 20)) m8 = f;
@@ -627,7 +627,7 @@ int main(int argc, char **argv) {
     /* reference: the same call with one thread (C06: info does not depend on thread count and schedule) */
     { fflush(NULL); pid_t pid = fork();
       if (pid == 0) { prctl(PR_SET_PDEATHSIG, SIGKILL); in_ref_child = 1; int P = CFG.nprocs; CFG.nprocs = 1; MODEL_ENABLED = 0; sched_reset(); run_factor_case(&TM, &CFG, &RES); CFG.nprocs = P; X->ref_info = RES.info; X->have_ref = 1; fflush(NULL); _exit(0); }
-      int st; waitpid(pid, &st, 0); }
+      int st; waitpid(pid, &st, 0); vf_discard_log(pid); }
     /* supervisor loop */
     int complete = 1;
     for (;;) {
